@@ -33,5 +33,6 @@ Definition x_cli := cli.
 Definition x_keylog := get_keys_from_string.
 Definition x_pcapng := parse_file.
 Definition x_time_us := time_us.
+Definition x_legacy_us := legacy_us.
 
-Extraction "model.ml" x_time_us x_pcapng x_keylog x_cli x_run x_run_tls x_write_file x_derive_session_keys x_dev_initial_keys x_dev_quic_keys x_key_update x_prf_ssl_30 x_prf_tls_10_11 x_prf_tls_12 x_gen_ms_12 x_make_info x_cksum x_occ x_parse_frames x_varint x_varint_len x_full_pn x_rfc_pn x_quic_nonce x_suite x_denote x_iana index from_be to_be Z.add Z.mul Z.div Z.modulo Z.eqb Z.ltb.
+Extraction "model.ml" x_legacy_us x_time_us x_pcapng x_keylog x_cli x_run x_run_tls x_write_file x_derive_session_keys x_dev_initial_keys x_dev_quic_keys x_key_update x_prf_ssl_30 x_prf_tls_10_11 x_prf_tls_12 x_gen_ms_12 x_make_info x_cksum x_occ x_parse_frames x_varint x_varint_len x_full_pn x_rfc_pn x_quic_nonce x_suite x_denote x_iana index from_be to_be Z.add Z.mul Z.div Z.modulo Z.eqb Z.ltb.
